@@ -5,7 +5,7 @@ From stdpp Require Import gmap.
 From Coq Require Import ZArith.
 From V Require Import Base.Res Sched.LedgerModel Sched.StmtModel Sched.GangModel Sched.LedgerInvP Sched.LedgerInv
   Sched.LedgerLemmasA Sched.LedgerLemmasJob Sched.LedgerLemmasNode Sched.LedgerLemmasSess Sched.LedgerLemmasSk
-  Sched.LedgerLemmasTxn Sched.LedgerLemmasSound Sched.LedgerLemmasEx C07.Example C07.Refuted.
+  Sched.LedgerLemmasTxn Sched.LedgerLemmasTxnN Sched.LedgerLemmasSound Sched.LedgerLemmasEx C07.Example C07.Refuted.
 Open Scope Z_scope.
 
 (* ---- 1. primitives ---- *)
@@ -111,8 +111,7 @@ Theorem C07_ssn_allocate_dispatch_refused_refuted :
 Proof. exact ssn_allocate_dispatch_refused_refuted. Qed.
 Print Assumptions C07_ssn_allocate_dispatch_refused_refuted.
 
-(* ---- 5. Discard restores the session (one recorded operation of each kind; the n-operation
-        statement is in docs/notes/C07.md) ---- *)
+(* ---- 5. Discard restores the session ---- *)
 Theorem C07_sk_determines : forall s s',
   ledger_inv s -> ledger_inv s' -> hv s = hv s' -> jv s = jv s' -> nv s = nv s' ->
   map_same task_same (heap s) (heap s') /\ map_same job_same (jobs s) (jobs s') /\
@@ -120,7 +119,28 @@ Theorem C07_sk_determines : forall s s',
 Proof. exact sk_determines. Qed.
 Print Assumptions C07_sk_determines.
 
-Theorem C07_discard_restores_place_partial : forall eps s sid k p nid s1,
+(* any number of Allocate / Pipeline / Evict / Evict-with-the-node's-clone operations recorded in
+   ONE statement on pairwise distinct tasks meeting the call sites' preconditions in the state
+   before the first operation (operations that fail on the way leave no trace and are not
+   recorded): Discard returns a state sess_eqv to that state *)
+Theorem C07_discard_restores : forall eps s sid ops,
+  sess_ok s -> default [] (stmts s !! sid) = [] -> NoDup (map tx_tid ops) -> Forall (tx_pre s) ops ->
+  let s' := run eps s (map (tx_op sid) ops) in
+  sess_eqv s (stmt_discard eps s' sid) /\
+  binds (stmt_discard eps s' sid) = binds s /\ evicts (stmt_discard eps s' sid) = evicts s.
+Proof. exact discard_restores. Qed.
+Print Assumptions C07_discard_restores.
+
+(* the frame lemma behind it: an operation on task i changes heap entry i, the node copies keyed
+   i and the handler ledger's coverage monotonically -- and keeps the preconditions of every
+   other task *)
+Theorem C07_tx_pre_frame : forall I s s' o,
+  local_on I s s' -> tx_tid o ∉ I -> tx_pre s o -> tx_pre s' o.
+Proof. exact tx_pre_frame. Qed.
+Print Assumptions C07_tx_pre_frame.
+
+(* single-operation forms (also give the undo_op / commit_op level facts) *)
+Theorem C07_discard_restores_place : forall eps s sid k p nid s1,
   sess_ok s -> placeable s p nid -> k <> KEvict -> default [] (stmts s !! sid) = [] ->
   place_with eps s sid k p nid = (s1, ROk) ->
   sess_eqv s (stmt_discard eps s1 sid) /\ sess_eqv s (undo_op eps s1 (mkOp k (t_id p) Pending)) /\
@@ -128,15 +148,15 @@ Theorem C07_discard_restores_place_partial : forall eps s sid k p nid s1,
   (t_id p ∈ refuse_bind s -> k = KAllocate ->
      commit_op eps s1 (mkOp k (t_id p) Pending) = undo_op eps s1 (mkOp k (t_id p) Pending)).
 Proof. exact discard_restores_place. Qed.
-Print Assumptions C07_discard_restores_place_partial.
+Print Assumptions C07_discard_restores_place.
 
-Theorem C07_discard_restores_evict_partial : forall eps s sid p nid,
+Theorem C07_discard_restores_evict : forall eps s sid p nid,
   sess_ok s -> evictable s p nid -> default [] (stmts s !! sid) = [] ->
   let r := stmt_evict_with eps s sid p None in
   snd r = ROk /\ sess_eqv s (stmt_discard eps (fst r) sid) /\
   binds (stmt_discard eps (fst r) sid) = binds s /\ evicts (stmt_discard eps (fst r) sid) = evicts s.
 Proof. exact discard_restores_evict. Qed.
-Print Assumptions C07_discard_restores_evict_partial.
+Print Assumptions C07_discard_restores_evict.
 
 (* ---- 6. Commit ---- *)
 Theorem C07_commit_refused_bind_rolls_back : forall eps s sid p nid s1,
@@ -207,6 +227,9 @@ Example C07_ex_placeable : placeable ex_sess (ex_task 1) 1 /\ placeable ex_sess 
 Proof. exact ex_placeable. Qed.
 Example C07_ex_evictable : evictable ex_sess (ex_task 2) 1 /\ evictable ex_sess (ex_task 3) 2.
 Proof. exact ex_evictable. Qed.
+Example C07_ex_txn_pre :
+  Forall (tx_pre ex_sess) ex_txn /\ NoDup (map tx_tid ex_txn) /\ default [] (stmts ex_sess !! 1%positive) = [].
+Proof. exact ex_txn_pre. Qed.
 Example C07_ex_place_ok : snd (place_with ex_eps ex_sess 1 KAllocate (ex_task 1) 1) = ROk.
 Proof. exact ex_place_ok. Qed.
 Example C07_ex_place_fails : snd (place_with ex_eps ex_sess 1 KAllocate (ex_task 1) 9) = RErr.
